@@ -119,7 +119,7 @@ def rows_of(t, rank: int) -> List[List[Any]]:
         out.append([
             _i(rec.index), _i(rec.ts), _i(rec.dur), _pid(rec.pid), _pid(rec.tid), _i(rec.stream),
             _i(rec.correlation), _i(rec.index_correlation) if has_link else -1,
-            _i(rec.iteration) if has_iter else -1, tab[int(rec.name)], tab[int(rec.cat)],
+            (_i(rec.iteration) if rec.iteration == rec.iteration else -1) if has_iter else -1, tab[int(rec.name)], tab[int(rec.cat)],
         ])
     return out
 
